@@ -243,7 +243,7 @@ RESTRICT_VTABLE = not os.environ.get("VERIF_NO_RESTRICT")
 FS_ARRAY_DEFAULT = 1024     # see ws.REPR_PATCH: heap objects larger than CBMC's default 64 bytes lose constant propagation
 
 
-def verify_one(meta, unwind, solver, timeout, rss_gb, keep_log_dir, rec_limit=None, extra=None, fs_array=None):
+def verify_one(meta, unwind, solver, timeout, rss_gb, keep_log_dir, rec_limit=None, extra=None, fs_array=None, trace_props=None):
     """run the post-codegen pipeline for one harness -> result dict"""
     sym = meta["goto_file"]
     mangled = meta["mangled_name"]
@@ -301,8 +301,13 @@ def verify_one(meta, unwind, solver, timeout, rss_gb, keep_log_dir, rec_limit=No
     if fsa:
         cmd += ["--max-field-sensitivity-array-size", str(fsa)]
     cmd += list(extra or []) + os.environ.get("VERIF_CBMC_EXTRA", "").split()
-    cmd += ["--slice-formula", out, "--verbosity", "8"]
-    logp = os.path.join(keep_log_dir, re.sub(r"[^A-Za-z0-9_]", "_", meta["pretty_name"])[-150:] + ".cbmc.txt")
+    if trace_props:
+        # second run for a counterexample: only the violated properties, with the trace (input values of the kani::any calls)
+        for tp in trace_props:
+            cmd += ["--property", tp]
+        cmd += ["--trace", "--stop-on-fail"]
+    cmd += ["--slice-formula", out, "--verbosity", "8" if not trace_props else "4"]
+    logp = os.path.join(keep_log_dir, re.sub(r"[^A-Za-z0-9_]", "_", meta["pretty_name"])[-150:] + (".cbmc.txt" if not trace_props else ".trace.txt"))
     rc, w, to = _run(cmd, timeout, rss_gb, out_path=logp)
     res["wall_s"] = time.time() - t0
     try:
@@ -312,6 +317,10 @@ def verify_one(meta, unwind, solver, timeout, rss_gb, keep_log_dir, rec_limit=No
         text = ""
     if to:
         res["reason"] = "cbmc timeout after %ds" % timeout
+        return res
+    if trace_props:
+        res["trace_log"] = logp
+        res["status"] = "traced"
         return res
     pr = parse_cbmc(text)
     res.update({"failed": pr["failed"], "checks": pr["checks"], "proved": pr["proved"], "covers_sat": len(pr["covers_sat"]),
@@ -364,8 +373,11 @@ def run_group(pkg, harnesses, feature_args, jobs, timeout, rss_gb, log_dir, tag)
         if not md:
             return h.name, {"status": "inconclusive", "reason": "harness not found in kani metadata", "failed": [], "checks": 0,
                             "proved": 0, "covers_sat": 0, "covers_unsat": 0, "solver_s": 0.0, "symex_s": 0.0}
-        return h.name, verify_one(md, h.unwind, h.solver, timeout, rss_gb, log_dir, getattr(h, "rec_limit", None), getattr(h, "cbmc_extra", None),
-                                  getattr(h, "fs_array", None))
+        r = verify_one(md, h.unwind, h.solver, timeout, rss_gb, log_dir, getattr(h, "rec_limit", None), getattr(h, "cbmc_extra", None),
+                       getattr(h, "fs_array", None))
+        r["_md"] = md
+        r["_run"] = {"timeout": timeout, "rss_gb": rss_gb, "log_dir": log_dir}
+        return h.name, r
     done = 0
     from concurrent.futures import as_completed
     with ThreadPoolExecutor(max_workers=jobs) as ex:
@@ -378,3 +390,48 @@ def run_group(pkg, harnesses, feature_args, jobs, timeout, rss_gb, log_dir, tag)
                 print("  [%d/%d] %s: %s %s (%.0fs)" % (done, len(harnesses), name, r["status"], (r.get("reason") or "")[:60], r.get("wall_s", 0)), flush=True)
     meta["verify_wall_s"] = round(time.time() - t0, 1)
     return results, meta
+
+
+ANY_STATE = re.compile(r"^State \d+ file .* function (kani::any_raw_\S*.*?) line \d+ thread \d+$")
+
+
+def concrete_values(trace_text):
+    """-> list of byte lists: the values returned by the kani::any_raw_* calls along the FIRST counterexample trace, in execution
+    order (the same extraction kani-driver does from the JSON trace: assignments to `goto_symex$$return_value...` inside
+    `kani::any_raw_*`).  Arrays come as one value."""
+    i = trace_text.find("\nTrace for ")
+    if i < 0:
+        i = trace_text.find("Counterexample:")
+    if i < 0:
+        return None
+    j = trace_text.find("\nTrace for ", i + 5)
+    seg = trace_text[i:j if j > 0 else len(trace_text)]
+    lines = seg.split("\n")
+    vals = []
+    for k, line in enumerate(lines):
+        if not ANY_STATE.match(line):
+            continue
+        # the assignment is two lines below the state header
+        for a in lines[k + 1:k + 4]:
+            a = a.strip()
+            if not a.startswith("goto_symex$$return_value"):
+                continue
+            lhs, _, rhs = a.partition("=")
+            if "[" in lhs or "." in lhs.replace("goto_symex$$return_value", "").split("$$")[-1].replace("::", ""):
+                break        # element / member of an aggregate already taken as a whole
+            m = re.search(r"\((\{?[01 ,{}]+\}?)\)\s*$", rhs)
+            if not m:
+                break
+            groups = [g.strip() for g in m.group(1).strip("{} ").split(",")]
+            out = []
+            for g in groups:
+                bits = g.replace(" ", "")
+                if not bits or len(bits) % 8:
+                    out = None
+                    break
+                n = int(bits, 2)
+                out += list(n.to_bytes(len(bits) // 8, "little"))
+            if out is not None:
+                vals.append(out)
+            break
+    return vals
